@@ -4,6 +4,7 @@ package main
 // first delimiter; everything the server sent after it (possibly a complete reply in the same read) is kept.
 
 import (
+	"go/types"
 	"fmt"
 
 	"golang.org/x/tools/go/ssa"
@@ -20,18 +21,7 @@ func remainderExamined(c *Ctx, r *Report, read *ssa.Function, at ssa.Instruction
 		r.Anchor(rule, "(*channel.Channel).Read / channel.Channel.PromptPattern")
 		return
 	}
-	isMatch := func(in ssa.Instruction) bool {
-		call, ok := in.(*ssa.Call)
-		if !ok || len(call.Call.Args) < 2 {
-			return false
-		}
-		o := CalleeObj(call)
-		if o == nil || o.Pkg() == nil || o.Pkg().Path() != "regexp" {
-			return false
-		}
-		f, _, ok := fieldLoad(call.Call.Args[0])
-		return ok && f == pp
-	}
+	isMatch := func(in ssa.Instruction) bool { return isDelimiterTest(in, pp, 0) }
 	rr := reachFrom(read, at, isMatch, nil)
 	var hit ssa.Instruction
 	for in := range rr.visited {
@@ -163,18 +153,7 @@ func checkNetconfScanEveryPass(c *Ctx, r *Report, read *ssa.Function) {
 		r.Anchor(rule, "(*channel.Channel).Read / channel.Channel.PromptPattern")
 		return
 	}
-	isMatch := func(in ssa.Instruction) bool {
-		call, ok := in.(*ssa.Call)
-		if !ok || len(call.Call.Args) < 2 {
-			return false
-		}
-		o := CalleeObj(call)
-		if o == nil || o.Pkg() == nil || o.Pkg().Path() != "regexp" {
-			return false
-		}
-		f, _, ok := fieldLoad(call.Call.Args[0])
-		return ok && f == pp
-	}
+	isMatch := func(in ssa.Instruction) bool { return isDelimiterTest(in, pp, 0) }
 	n := 0
 	for _, ci := range staticCallsTo(read, chRead) {
 		n++
@@ -188,4 +167,47 @@ func checkNetconfScanEveryPass(c *Ctx, r *Report, read *ssa.Function) {
 	if n == 0 {
 		r.Unk(rule, "NETCONF reader poll loop", c.Pos(read.Pos()), "the reader does not call Channel.Read")
 	}
+}
+
+// isDelimiterTest: a regexp call on the channel's prompt (= delimiter) pattern, or a call of a library function that
+// performs one (the test may live in a helper of the reader).
+func isDelimiterTest(in ssa.Instruction, pp *types.Var, depth int) bool {
+	call, ok := in.(*ssa.Call)
+	if !ok {
+		return false
+	}
+	if o := CalleeObj(call); o != nil && o.Pkg() != nil && o.Pkg().Path() == "regexp" && len(call.Call.Args) >= 2 {
+		f, _, ok := fieldLoad(call.Call.Args[0])
+		return ok && f == pp
+	}
+	if depth > 1 {
+		return false
+	}
+	sc := call.Call.StaticCallee()
+	if sc == nil || sc.Pkg == nil || !isLibPkgPath(sc.Pkg.Pkg.Path()) || sc.Blocks == nil {
+		return false
+	}
+	// the helper tests the pattern on every path from its entry
+	ret, _ := mustCallBeforeReturnFn(sc, func(i2 ssa.Instruction) bool { return isDelimiterTest(i2, pp, depth+1) })
+	return ret == nil
+}
+
+func mustCallBeforeReturnFn(fn *ssa.Function, isTarget func(ssa.Instruction) bool) (ssa.Instruction, *reachResult) {
+	rr := reachFrom(fn, nil, isTarget, nil)
+	for _, b := range fn.Blocks {
+		for _, in := range b.Instrs {
+			if isReturn(in) && rr.visited[in] && len(b.Preds)+b.Index > 0 {
+				return in, rr
+			}
+		}
+	}
+	// single-block function: entry block has no preds
+	if len(fn.Blocks) == 1 {
+		for _, in := range fn.Blocks[0].Instrs {
+			if isReturn(in) && rr.visited[in] {
+				return in, rr
+			}
+		}
+	}
+	return nil, rr
 }
